@@ -72,11 +72,11 @@ def relayout(Aq, layout):
 def xf_names(m, n, hermitian=False):
     names = [f"cm:{G.mask_name(k)}" for k in range(1, 15)]
     names += ["equalmod", "constant", "rowgraded", "colgraded", "circulant_q", "toeplitz_q", "checker", "lay:F", "lay:T", "lay:view", "lay:ro",
-              "negzero_col", "negated_checker", "nearcol"]
+              "negzero_col", "negated_checker", "nearcol", "depcol1"]
     if m == n:
         names += [f"sp:{k}" for k in G.SPECIAL_KINDS] + ["hermoff_qdiag"]
     if hermitian:
-        names = [x for x in names if x not in ("rowgraded", "colgraded", "toeplitz_q", "negzero_col", "nearcol", "hermoff_qdiag")] + ["congraded"]
+        names = [x for x in names if x not in ("rowgraded", "colgraded", "toeplitz_q", "negzero_col", "nearcol", "depcol1", "hermoff_qdiag")] + ["congraded"]
         names = [x for x in names if not x.startswith("sp:") or x[3:] in ("exchange", "ones", "hadamard_like", "path_laplacian")]
     return names
 
@@ -155,6 +155,10 @@ def xf_build(name, m, n, fill, hermitian=False):
             if not q.any():
                 q[0] = 1.0
             A[:, j] = O.qmul(A[:, 0], np.broadcast_to(q, (m, 4))) + np.ldexp(base[:, j], -17)
+    elif name == "depcol1":  # column 1 an exact right multiple of column 0 (rank n-1, the dependency sits in the LEADING columns)
+        A = base.copy()
+        if n >= 2:
+            A[:, 1] = O.qmul(A[:, 0], np.broadcast_to(np.array([0.5, -1.0, 0.0, 2.0]), (m, 4)))
     elif name == "hermoff_qdiag":  # Hermitian off-diagonal part, quaternion (non-real) diagonal: NOT Hermitian, a legal general matrix
         A = _hermitize(base)
         for i in range(n):
